@@ -24,11 +24,11 @@ LEVEL_TEXT = (
     "between; the simulated network shows which socket carried which request and which settings reached the socket/TLS seams. Contexts differing by keyword-not-given vs a falsy but meaningful value (ssl.CERT_NONE, assert_hostname=False, retries=False/0, socket_options=[]) are part of the grid. The keyword x scheme x mode grid is enumerated."
 )
 LEVEL_NOTE = "trusted: the value table for known keywords (unknown keywords get generic values and must be rejected or separate); observation of settings limited to what reaches a seam (bind, socket options, timeouts, TLS wrap arguments)"
-N = {"quick": 900, "thorough": 9000}
+N = {"quick": 1000, "thorough": 9000}
 BUDGET = {"quick": 45, "thorough": 300}
 RULE = "index k -> (keyword, scheme, supply mode, in-between event, URL respelling) by enumeration of the grid then seeded repetition. Non-trivial = the keyword was accepted; distinct = distinct (keyword, scheme, mode, event, respelling)."
 ASSUMPTIONS = ["a keyword that raises TypeError (at pool creation or at the first request, before any I/O) counts as rejected"]
-REQUIRED_PROBES = {"quick": ["separate_pools", "unset_vs_falsy", "via_proxy_manager", "redirect_to_other_host_followed", "defaults_around_override_ok", "rejected_keyword", "same_context_shared", "respelled_url_shared", "defaults_unchanged", "evicted_then_A", "seam:source_address", "seam:timeout", "seam:tls"], "thorough": ["separate_pools", "unset_vs_falsy", "via_proxy_manager", "redirect_to_other_host_followed", "defaults_around_override_ok", "rejected_keyword", "same_context_shared", "respelled_url_shared", "defaults_unchanged", "evicted_then_A", "seam:source_address", "seam:timeout", "seam:tls"]}
+REQUIRED_PROBES = {"quick": ["separate_pools", "unset_vs_falsy", "via_proxy_manager", "redirect_to_other_host_followed", "defaults_around_override_ok", "headers_as_httpheaderdict", "rejected_keyword", "same_context_shared", "respelled_url_shared", "defaults_unchanged", "evicted_then_A", "seam:source_address", "seam:timeout", "seam:tls"], "thorough": ["separate_pools", "unset_vs_falsy", "via_proxy_manager", "redirect_to_other_host_followed", "defaults_around_override_ok", "headers_as_httpheaderdict", "rejected_keyword", "same_context_shared", "respelled_url_shared", "defaults_unchanged", "evicted_then_A", "seam:source_address", "seam:timeout", "seam:tls"]}
 
 
 def keywords():
@@ -125,13 +125,17 @@ def cases(seed, k, tier):
     grid += [(kw, "http", "proxy_pool_kwargs", ev, None) for kw in ks if not kw.startswith("_proxy") for ev in EVENTS]
     # contexts that differ by "keyword not given" vs "keyword given with a falsy but meaningful value"
     grid += [(kw, scheme, mode, ev, i) for kw in FALSY_KWS if kw in ks for i in range(len(falsy_values(kw))) for scheme in ("http", "https") for mode in MODES for ev in EVENTS]
+    # the same keyword given in another container type (default headers as an HTTPHeaderDict instead of a dict)
+    grid += [("headers", scheme, mode, ev, "hhd") for scheme in ("http", "https") for mode in MODES + ["proxy_pool_kwargs"] for ev in EVENTS if not (mode == "proxy_pool_kwargs" and scheme == "https")]
     rng = rng_for(seed, ID, k)
     if k < len(grid):
         kw, scheme, mode, ev, fi = grid[k]
     else:
         kw, scheme, mode, ev, fi = rng.choice(grid)
     sc = {"property": ID, "kw": kw, "scheme": scheme, "mode": mode, "event": ev, "flip": rng.random() < 0.5 if k >= len(grid) else False}
-    if fi is not None:
+    if isinstance(fi, str):
+        sc["flavour"] = fi
+    elif fi is not None:
         sc["falsy"] = fi
     yield sc
 
@@ -141,6 +145,11 @@ def run(sc: dict) -> Result:
     urllib3 = H.u3()
     kw, scheme, mode, ev = sc["kw"], sc["scheme"], sc["mode"], sc["event"]
     va, vb = values(kw)
+    if sc.get("flavour") == "hhd":
+        from urllib3._collections import HTTPHeaderDict
+
+        va, vb = (lambda: HTTPHeaderDict({"X-Ctx": "a"})), (lambda: HTTPHeaderDict({"X-Ctx": "b"}))
+        res.probes["headers_as_httpheaderdict"] += 1
     if sc.get("falsy") is not None:
         va, vb = (lambda: UNSET), falsy_values(kw)[sc["falsy"]]
         res.probes["unset_vs_falsy"] += 1
